@@ -65,3 +65,32 @@ Example C09b_nonvacuous :
 Proof. exact assemble2_budget_nonvacuous. Qed.
 
 (* ---------------- for Props/C06.v ---------------- *)
+
+(* ===== asm blocks and the budget (Model/AsmBlock.v, src/asm/resolver/eval_asm.rs as of /repo b4e61a4).  A VALUE a block
+   yields is budget independent and nothing but Unknown leaves an unsettled block; WHETHER a guessing pass gets a value
+   or Unknown does depend on the budget (refuted below), which is the channel of known finding F78: the whole-program
+   extension of C09_monotone to programs with asm blocks is false of the code and is therefore not stated. ===== *)
+From CA Require Import Model.AsmBlock Proofs.AsmBlockP Proofs.AsmBlockBudgetP.
+Theorem C09_asm_block_no_leak : forall mr ao sub outer_last ns pos max ls ls1 x ls2,
+  rounds mr ao sub outer_last ns pos max 0 max ls = BOk ls1 ->
+  resolve_once mr ao sub false outer_last ns pos ls1 = BOk (x, true, ls2) ->
+  resolve_iteratively mr ao sub outer_last ns pos max ls = if outer_last then BErr else BOk VUnknown.
+Proof. exact no_leak. Qed.
+Theorem C09_asm_block_budget_monotone : forall mr ao sub outer_last,
+  (forall line pos ls enc, mr line pos ls false = EOk (Some enc) -> mr line pos ls true = EOk (Some enc)) ->
+  forall depth raw pos n n' V, (n <= n')%nat ->
+  eval_asm mr ao sub outer_last depth raw pos n = BOk (VInt V) ->
+  eval_asm mr ao sub outer_last depth raw pos n' = BOk (VInt V).
+Proof. exact eval_asm_budget_monotone. Qed.
+Theorem C09_asm_block_budget_monotone_resolver : forall indexed defs names st sub outer_last depth raw pos n n' V,
+  (n <= n')%nat ->
+  eval_asm (resolver_line indexed defs names st) address_at sub outer_last depth raw pos n = BOk (VInt V) ->
+  eval_asm (resolver_line indexed defs names st) address_at sub outer_last depth raw pos n' = BOk (VInt V).
+Proof. exact resolver_block_budget_monotone. Qed.
+Theorem C09_asm_block_guess_outcome_budget_independent_refuted :
+  exists mr ao sub depth raw pos n n' V,
+    (forall line p ls enc, mr line p ls false = EOk (Some enc) -> mr line p ls true = EOk (Some enc)) /\
+    (n <= n')%nat /\
+    eval_asm mr ao sub false depth raw pos n = BOk VUnknown /\
+    eval_asm mr ao sub false depth raw pos n' = BOk (VInt V).
+Proof. exact toy_block_outcome_depends_on_budget. Qed.
